@@ -27,6 +27,33 @@ def _charmap():
     return charset_table_to_dict(default_charset)
 
 
+class _Rel(object):
+    """a relation between a token's text and its source text[startchar:endchar] given by a function
+    (for analyzers whose text transformation is a table or a simple string function)"""
+
+    def __init__(self, name, fn):
+        self.name, self.fn = name, fn
+
+    def __call__(self, src, tokentext):
+        try:
+            return self.fn(src) == tokentext
+        except Exception:
+            return False
+
+
+def _charmap_rel():
+    cm = _charmap()
+
+    def fn(src):
+        # every source character is a token character of the table (no break character inside or at
+        # the edges of the source range) and the token is the translated source
+        out = [cm.get(ord(c)) for c in src]
+        if not all(out):
+            raise ValueError("break character inside the source range")
+        return u"".join(out)
+    return _Rel("charmap", fn)
+
+
 CATALOGUE = {
     # name: (factory, rel, onepos)
     "id": (lambda: analysis.IDAnalyzer(), "exact", True),
@@ -52,13 +79,17 @@ CATALOGUE = {
     "ngramword-end": (lambda: analysis.NgramWordAnalyzer(2, 4, at="end"), "lower", False),
     "space": (lambda: analysis.SpaceSeparatedTokenizer(), "exact", True),
     "comma": (lambda: analysis.CommaSeparatedTokenizer(), "strip", True),
-    "charset-tokenizer": (lambda: analysis.CharsetTokenizer(_charmap()), "none", True),
+    "charset-tokenizer": (lambda: analysis.CharsetTokenizer(_charmap()), _charmap_rel(), True),
+    "charset-tokenizer-lower": (lambda: analysis.CharsetTokenizer(_charmap()) | LOW(),
+                                _Rel("charmap-lower", lambda src, f=_charmap_rel().fn: f(src).lower()), True),
     "path": (lambda: analysis.PathTokenizer(), "none", True),
     "url": (lambda: RT(analysis.url_pattern) | LOW(), "lower", True),
     "strip": (lambda: RT(r"[^,]+") | analysis.StripFilter(), "strip", True),
-    "reverse": (lambda: RT() | analysis.ReverseTextFilter(), "none", True),
-    "charset-filter": (lambda: RT() | LOW() | analysis.CharsetFilter(accent_map), "none", True),
-    "substitution": (lambda: RT(r"\S+") | analysis.SubstitutionFilter("-", ""), "none", True),
+    "reverse": (lambda: RT() | analysis.ReverseTextFilter(), _Rel("reversed", lambda src: src[::-1]), True),
+    "charset-filter": (lambda: RT() | LOW() | analysis.CharsetFilter(accent_map),
+                       _Rel("lower-folded", lambda src: src.lower().translate(accent_map)), True),
+    "substitution": (lambda: RT(r"\S+") | analysis.SubstitutionFilter("-", ""),
+                     _Rel("hyphens-removed", lambda src: src.replace("-", "")), True),
     "delimited": (lambda: RT(r"\S+") | analysis.DelimitedAttributeFilter(), "none", True),
     "biword": (lambda: RT() | LOW() | analysis.BiWordFilter(), "none", False),
     "shingle2": (lambda: RT() | LOW() | analysis.ShingleFilter(2), "none", False),
@@ -81,6 +112,18 @@ CATALOGUE = {
     "logging": (lambda: RT() | analysis.LoggingFilter() | analysis.PassFilter(), "exact", True),
     "ngramfilter": (lambda: RT() | analysis.NgramFilter(3), "exact", False),
     "ngramtokenizer": (lambda: analysis.NgramTokenizer(3), "exact", False),
+    # MultiFilter with branches of the modelled filters (query-time texts are index-time texts)
+    "ngramword-multi": (lambda: RT() | LOW() | analysis.MultiFilter(index=analysis.NgramFilter(2, 4),
+                                                                   query=analysis.NgramFilter(2, 3)), "lower", False),
+    "stemming-ignore": (lambda: analysis.StemmingAnalyzer(ignore=frozenset(["running", "geese"])), "none", True),
+}
+# analyzers that only take part in the model correspondence (a MultiFilter whose query branch is
+# not a restriction of its index branch: query-time tokens need not find the document)
+CORR_ONLY = {
+    "multi-stop": lambda: RT() | LOW() | analysis.MultiFilter(index=analysis.PassFilter(), query=analysis.StopFilter())
+    | analysis.ReverseTextFilter(),
+    "multi-default": lambda: RT() | analysis.MultiFilter(index=LOW()),
+    "multi-query-lower": lambda: RT() | analysis.MultiFilter(query=LOW(), index=analysis.StripFilter()),
 }
 for _lang in sorted(languages):
     CATALOGUE["language-" + _lang] = ((lambda lg=_lang: analysis.LanguageAnalyzer(lg)), "none", True)
@@ -94,7 +137,7 @@ _ANALYZERS = {}
 def get_analyzer(name):
     if name not in _ANALYZERS:
         try:
-            _ANALYZERS[name] = CATALOGUE[name][0]()
+            _ANALYZERS[name] = CORR_ONLY[name]() if name in CORR_ONLY else CATALOGUE[name][0]()
         except Exception as e:  # e.g. a language without stemmer
             _ANALYZERS[name] = e
     return _ANALYZERS[name]
@@ -130,6 +173,8 @@ BUILTIN_FIELDS = {
 POOL = [
     # plain words, stop words, case
     "alfa", "Bravo", "CHARLIE", "delta", "the", "a", "of", "and", "The", "IS", "x", "I",
+    # stop words that a stemmer would change (StemFilter must leave stopped tokens alone)
+    "this", "are", "This",
     # dots, underscores, hyphens, apostrophes
     "e.g.", "3.141", "a.b.c", "under_score", "big-time", "Wi-Fi", "don't", "O'Neil", "v1.2.3", "..", "a..b", "x.",
     # digits
@@ -146,7 +191,9 @@ POOL = [
     # boost syntax for DelimitedAttributeFilter
     "render^2", "file^0.5", "x^", "^3",
 ]
-SEPS = [" ", " ", " ", "  ", "\t", "\n", ", ", ",", ". ", "-", "/", " - ", "　", ";"]
+SEPS = [" ", " ", " ", "  ", "\t", "\n", ", ", ",", ". ", "-", "/", " - ", "　", ";",
+        # runs of two and more break characters
+        " -- ", "://", " (", ") ", "...", " , ", "\n\n", "--", "; ", "   "]
 
 
 def gen_text(rng):
@@ -161,6 +208,8 @@ def gen_text(rng):
         s = s.strip()
     elif r < 0.25:
         s = " " + s
+    elif r < 0.32:
+        s = rng.choice(SEPS) + rng.choice(SEPS) + s
     return s
 
 
@@ -192,8 +241,60 @@ def _stop_sexp(removestops, stoplist=analysis.STOP_WORDS, minsize=2, maxsize=Non
     return "(stop (%s) %d %s %d %d)" % (stops, minsize, "none" if maxsize is None else maxsize, renumber, removestops)
 
 
-# name -> (tokenizer, [filters]); a filter that is a callable gets the removestops flag
+def _with_text(fn):
+    fn.needs_text = True
+    return fn
+
+
+def _flt(name, cls):
+    """the (last) filter of class `cls` of the real analyzer: its parameters are read from it"""
+    return [f for f in get_analyzer(name).items if isinstance(f, cls)][-1]
+
+
+def _table(pairs):
+    return "(" + " ".join("(%s %s)" % (_s_str(a), _s_str(b)) for a, b in sorted(pairs)) + ")"
+
+
+def _mapchars(name, cls):
+    def f(rs, text):
+        cm = _flt(name, cls).charmap
+        chars = sorted(set(text) | set(text.lower()))
+        return "(mapchars (%s))" % " ".join("(%d %s)" % (ord(c), _s_str(c.translate(cm))) for c in chars)
+    return _with_text(f)
+
+
+def _substitution(name):
+    def f(rs, text):
+        import re
+        flt = _flt(name, analysis.SubstitutionFilter)
+        words = set(re.findall(r"\S+", text))
+        return "(maptable %s)" % _table((w, flt.pattern.sub(flt.replacement, w)) for w in words)
+    return _with_text(f)
+
+
+def _stem(name):
+    def f(rs, text):
+        flt = _flt(name, analysis.StemFilter)
+        words = set(t.text for t in (RT() | LOW())(text))
+        return "(stem %s (%s))" % (_table((w, getattr(flt, "_stem", flt.stemfn)(w)) for w in words),
+                                   " ".join(_s_str(w) for w in sorted(flt.ignore)))
+    return _with_text(f)
+
+
+# name -> (tokenizer, [filters]); a filter that is a callable gets the removestops flag (and the
+# text when it needs a table of the words/characters that occur)
 MODELLED = {
+    "reverse": ("(regex default)", ["reverse"]),
+    "charset-filter": ("(regex default)", ["lowercase", _mapchars("charset-filter", analysis.CharsetFilter)]),
+    "substitution": ("(regex nonspace)", [_substitution("substitution")]),
+    "stemfilter-de": ("(regex default)", ["lowercase", _stem("stemfilter-de")]),
+    "stemming": ("(regex default)", ["lowercase", lambda rs: _stop_sexp(rs), _stem("stemming")]),
+    "stemming-nocache": ("(regex default)", ["lowercase", lambda rs: _stop_sexp(rs), _stem("stemming-nocache")]),
+    "stemming-ignore": ("(regex default)", ["lowercase", lambda rs: _stop_sexp(rs), _stem("stemming-ignore")]),
+    "ngramword-multi": ("(regex default)", ["lowercase", "(multi (ngram 2 4 all) (ngram 2 3 all))"]),
+    "multi-stop": ("(regex default)", ["lowercase", lambda rs: "(multi pass %s)" % _stop_sexp(rs), "reverse"]),
+    "multi-default": ("(regex default)", ["(multi lowercase pass)"]),
+    "multi-query-lower": ("(regex default)", ["(multi strip lowercase)"]),
     "regex": ("(regex default)", []),
     "logging": ("(regex default)", ["pass"]),
     "simple": ("(regex default)", ["lowercase"]),
@@ -222,7 +323,8 @@ MODELLED = {
 
 def model_request(name, text, mode, removestops):
     tk, fs = MODELLED[name]
-    fs = " ".join(f(removestops) if callable(f) else f for f in fs)
+    fs = " ".join((f(removestops, text) if getattr(f, "needs_text", False) else f(removestops)) if callable(f) else f
+                  for f in fs)
     chars = " ".join("(%d %d %d %s)" % (ord(c), bool(c.isalnum() or c == "_"), c.isspace(), _s_str(c.lower()))
                      for c in text)
     return "c17 analyze %s %s (%s) (%s)" % (mode, tk, fs, chars)
